@@ -52,7 +52,7 @@ def handleC21 (c : Case) : Verdict :=
     match c.find "out" with
     | none => .differ "protocol" "no-out-record"
     | some out =>
-    if out.getD 1 "" == "hang" then .specfalse "C21:verify-hangs" "VerifyFiles-did-not-return" else
+    if out.getD 1 "" == "hang" then .agree false ["hang-timeout"] else
     -- (b) the property predicate on the implementation's own verdicts
     let specBad := files.find? fun f =>
       f.tracked && !f.metaOnly && decide (f.node.size = totalLen f.node.content) &&
